@@ -132,6 +132,23 @@ def main(argv):
   ctx = multiprocessing.get_context("fork")
   with ctx.Pool(min(jobs, len(cases))) as pool:
     results = pool.map(_work, range(len(cases)), chunksize=1)
+  # a clause the solver left undecided while all workers were busy is retried once, alone (in this process),
+  # with four times the budget: solver timeouts must not flip a verdict because the machine was loaded
+  retry = [i for i, r in enumerate(results)
+           if not r["error"] and not r["undecided_reason"]
+           and any(c["status"] == "unknown" for c in r["clauses"].values())
+           and not any(c["status"] == "failed" for c in r["clauses"].values())]
+  for i in retry[:8]:
+    base = cases[i].timeout_ms or (10000 if tier == "quick" else 60000)
+    saved = cases[i].timeout_ms
+    cases[i].timeout_ms = base * 4
+    try:
+      r2 = _work(i)
+    finally:
+      cases[i].timeout_ms = saved
+    if not r2["error"] and not r2["undecided_reason"]:
+      r2["retried"] = True
+      results[i] = r2
 
   crash = [r for r in results if r["error"]]
   obligations = discharged = 0
